@@ -304,7 +304,41 @@ def cluster_table(ctx, cfg, fs):
         ctx.ob('D.cluster-table', 'disambiguate_short:flag=%s:arg=%s' % (isf, isa), ok,
                'disambiguate_short for a character that is %sa declared short flag and %sa declared short argument: %s' % ('' if isf else 'not ', '' if isa else 'not ', sorted(outs)), where=b.where(), cfg=cfg)
 
+def equals_value(ctx, cfg, fs):
+    """`--name=` and `-n=` carry an attached value - the EMPTY one.  Once the scan of split_os_argument has seen the `=` every
+    result has a value part; a result without one is produced only where the input ended before any `=`.  (Deciding on the
+    length of what follows the `=` would turn `--name=` into the bare `--name`, which then takes the NEXT item as its
+    value: the two spellings `--name ""` and `--name=` stop agreeing.)"""
+    b = ctx.look(fs.one(r'^arg::split_os_argument$'))
+    eq_edges = []
+    for sw in switches(b):
+        if sw.kind == 'int' and 61 in sw.edges and any(r.kind == 'call' and r.call.is_(r'Iterator>?::next$') for r in sw.roots):
+            eq_edges.append((sw.b, sw.edges[61]))
+    if not eq_edges:
+        # written as a comparison: `x == EQUALS`
+        for sw in switches(b):
+            if sw.kind == 'bool':
+                for r in sw.roots:
+                    if r.kind == 'bin' and r.extra['op'] in ('Eq', 'Ne'):
+                        ks = [q.what for o in (r.extra['a'], r.extra['b']) for q in provenance(b, o, r.site[0], r.site[1], through=None) if q.kind == 'const']
+                        if 61 in ks:
+                            eq_edges.append((sw.b, sw.target(r.extra['op'] == 'Eq')))
+    if not eq_edges:
+        raise Broken('split_os_argument: the test for `=` was not found')
+    after = set()
+    for (a_, t_) in eq_edges:
+        after |= reachable_edges(b, t_)
+    nones = [i for i, k, st in b.stmts() if st['k'] == 'assign' and st['rv']['k'] == 'agg' and st['rv'].get('variant') == 'None'
+             and re.match(r'std::option::Option<arg::Arg>$', b.local_ty(st['lhs'][0]) or '') and not st['lhs'][1]]
+    somes = [i for i, k, st in b.stmts() if st['k'] == 'assign' and st['rv']['k'] == 'agg' and st['rv'].get('variant') == 'Some'
+             and re.match(r'std::option::Option<arg::Arg>$', b.local_ty(st['lhs'][0]) or '') and not st['lhs'][1]]
+    bad = [b.where(i) for i in nones if i in after]
+    ctx.ob('B.boundaries', 'split_os_argument:value-iff-equals', bool(nones) and bool(somes) and not bad and all(i in after for i in somes),
+           'split_os_argument: a result without a value part is built only where no `=` was seen (%d site(s)), one with a value part only after the `=` (%d site(s)): %s' % (len(nones), len(somes), bad or 'ok'),
+           where=b.where(), cfg=cfg)
+
 def boundaries(ctx, cfg, fs):
+    equals_value(ctx, cfg, fs)
     before = len(ctx.obs)
     c04.str_index(ctx, cfg, fs)
     keep = [o for o in ctx.obs[before:] if 'disambiguate_short' in o.key or 'split_os_argument' in o.key]
